@@ -13,37 +13,37 @@ namespace C02
 variable {K V : Type} [DecidableEq K] [DecidableEq V]
 
 /-- the caches that exist after history `ops` on a fresh `LRI`/`LRU(max_size=max, on_miss=om)` -/
-abbrev reach (lru : Bool) (max : Nat) (om : Option (K → V)) (ops : List (WOp K V)) : List (Cache K V) :=
-  wrun [Cache.init lru max om] ops
+abbrev reach (lru : Bool) (max : Nat) (om : Option (K → OmRes V)) (ops : List (WOp K V)) : List (Cache K V) :=
+  wrun [Cache.initP lru max om] ops
 
 /-- the same history on the reference cache of the statement (`Spec.lean`) -/
-abbrev refReach (lru : Bool) (max : Nat) (om : Option (K → V)) (ops : List (WOp K V)) : List (Ref K V) :=
-  Ref.wrun [Ref.init lru max om] ops
+abbrev refReach (lru : Bool) (max : Nat) (om : Option (K → OmRes V)) (ops : List (WOp K V)) : List (Ref K V) :=
+  Ref.wrun [Ref.initP lru max om] ops
 
 /-! ### refinement: the cache behaves like the reference cache -/
 
 /-- after every history the caches simulate the reference caches (same contents in the same
     dict order, same counters, ring = contents in stamp order) -/
-theorem refines_ref (lru : Bool) (max : Nat) (hmax : 1 ≤ max) (om : Option (K → V)) (ops : List (WOp K V)) :
+theorem refines_ref (lru : Bool) (max : Nat) (hmax : 1 ≤ max) (om : Option (K → OmRes V)) (ops : List (WOp K V)) :
     WSim (reach lru max om ops) (refReach lru max om ops) :=
-  ((WSim.single (Sim.init lru max om hmax)).run ops).1
+  ((WSim.single (Sim.initP lru max om hmax)).run ops).1
 
 /-- contents (and iteration order) of every cache equal those of the reference cache, in which a
     new key entering a full cache evicts exactly the key whose latest insertion-or-assignment
     (LRI) / insertion, assignment or successful lookup (LRU) is oldest -/
-theorem contents_eq_ref (lru : Bool) (max : Nat) (hmax : 1 ≤ max) (om : Option (K → V)) (ops : List (WOp K V)) :
+theorem contents_eq_ref (lru : Bool) (max : Nat) (hmax : 1 ≤ max) (om : Option (K → OmRes V)) (ops : List (WOp K V)) :
     (reach lru max om ops).map (·.d) = (refReach lru max om ops).map (·.ents) :=
   (refines_ref lru max hmax om ops).contents
 
 /-- every call returns what the reference cache returns (value, KeyError, item, bool, length,
     iteration order; for copy(): "a new cache") -/
-theorem results_eq_ref (lru : Bool) (max : Nat) (hmax : 1 ≤ max) (om : Option (K → V)) (ops : List (WOp K V)) :
-    (wouts [Cache.init lru max om] ops).map Out.shape =
-    (Ref.wouts [Ref.init lru max om] ops).map Out.shape :=
-  ((WSim.single (Sim.init lru max om hmax)).run ops).2
+theorem results_eq_ref (lru : Bool) (max : Nat) (hmax : 1 ≤ max) (om : Option (K → OmRes V)) (ops : List (WOp K V)) :
+    (wouts [Cache.initP lru max om] ops).map Out.shape =
+    (Ref.wouts [Ref.initP lru max om] ops).map Out.shape :=
+  ((WSim.single (Sim.initP lru max om hmax)).run ops).2
 
 /-- hit / miss / soft-miss counters and the record of on_miss calls equal the reference's -/
-theorem counters_eq_ref (lru : Bool) (max : Nat) (hmax : 1 ≤ max) (om : Option (K → V)) (ops : List (WOp K V)) :
+theorem counters_eq_ref (lru : Bool) (max : Nat) (hmax : 1 ≤ max) (om : Option (K → OmRes V)) (ops : List (WOp K V)) :
     (reach lru max om ops).map (fun c => (c.hit, c.miss, c.soft, c.omLog)) =
     (refReach lru max om ops).map (fun s => (s.hit, s.miss, s.soft, s.omLog)) :=
   (refines_ref lru max hmax om ops).counters
@@ -86,7 +86,7 @@ theorem ref_victim_is_oldest (stamp : K → Nat) (l : List K) (m : K) (h : oldes
 
 /-- the ring of every cache is its contents in the order of the reference's stamps (oldest
     first): the ring head is the key whose latest insertion / assignment / (LRU) lookup is oldest -/
-theorem ring_is_recency_order (lru : Bool) (max : Nat) (hmax : 1 ≤ max) (om : Option (K → V))
+theorem ring_is_recency_order (lru : Bool) (max : Nat) (hmax : 1 ≤ max) (om : Option (K → OmRes V))
     (ops : List (WOp K V)) (c : Cache K V) (hc : c ∈ reach lru max om ops) :
     ∃ s ∈ refReach lru max om ops, c.d = s.ents ∧ c.ring.Perm s.ents ∧
       c.ring.Pairwise (fun a b => s.stamp a.1 < s.stamp b.1) := by
@@ -138,29 +138,29 @@ theorem ref_assign_evicts_oldest (s : Ref K V) (hn : (keys s.ents).Nodup) (hmax 
 /-! ### capacity and the three structures staying in step -/
 
 /-- the representation invariant holds in every reachable cache -/
-theorem reachable_inv (lru : Bool) (max : Nat) (hmax : 1 ≤ max) (om : Option (K → V))
+theorem reachable_inv (lru : Bool) (max : Nat) (hmax : 1 ≤ max) (om : Option (K → OmRes V))
     (ops : List (WOp K V)) (c : Cache K V) (hc : c ∈ reach lru max om ops) : Inv c := by
   obtain ⟨s, _, h⟩ := (refines_ref lru max hmax om ops).of_mem hc
   exact h.inv
 
 /-- class, capacity and on_miss of every cache of the world (copies included) are the
     constructor's -/
-theorem config_constant (lru : Bool) (max : Nat) (om : Option (K → V)) (ops : List (WOp K V))
+theorem config_constant (lru : Bool) (max : Nat) (om : Option (K → OmRes V)) (ops : List (WOp K V))
     (c : Cache K V) (hc : c ∈ reach lru max om ops) : c.lru = lru ∧ c.max = max ∧ c.onMiss = om := by
-  have := wrun_config (w := [Cache.init lru max om]) (cfg := (lru, max, om))
+  have := wrun_config (w := [Cache.initP lru max om]) (cfg := (lru, max, om))
     (by intro c hc; simp at hc; subst hc; rfl) ops c hc
   simp only [Cache.config, Prod.mk.injEq] at this
   exact this
 
 /-- an LRI / LRU never holds more than max_size items -/
-theorem size_le_max (lru : Bool) (max : Nat) (hmax : 1 ≤ max) (om : Option (K → V))
+theorem size_le_max (lru : Bool) (max : Nat) (hmax : 1 ≤ max) (om : Option (K → OmRes V))
     (ops : List (WOp K V)) (c : Cache K V) (hc : c ∈ reach lru max om ops) : c.d.length ≤ max := by
   have h := (reachable_inv lru max hmax om ops c hc).cap
   rwa [(config_constant lru max om ops c hc).2.1] at h
 
 /-- dict, key->link table and ring describe the same mapping: same keys without duplicates,
     same values, and the ring is a permutation of the dict items -/
-theorem ring_perm_keys (lru : Bool) (max : Nat) (hmax : 1 ≤ max) (om : Option (K → V))
+theorem ring_perm_keys (lru : Bool) (max : Nat) (hmax : 1 ≤ max) (om : Option (K → OmRes V))
     (ops : List (WOp K V)) (c : Cache K V) (hc : c ∈ reach lru max om ops) :
     c.ring.Perm c.d ∧ (keys c.ring).Nodup ∧ (keys c.d).Nodup ∧ ∀ k, lookup k c.d = lookup k c.ring := by
   have h := (reachable_inv lru max hmax om ops c hc).sync
@@ -260,15 +260,38 @@ theorem on_miss_called_iff_absent {c : Cache K V} (hi : Inv c) (op : Op K V) :
     | none =>
       cases hom : c.onMiss with
       | none => simp [(step_lookup_absent hi hop hk hom).2.2.2.2, hk, hom]
-      | some f => simp [(step_lookup_onMiss hi hop hk hom).2.2.2.2.1, hk, hom]
+      | some f =>
+        cases hf : f k with
+        | ret v => simp [(step_lookup_onMiss hi hop hk hom hf).2.2.2.2.1, hk, hom]
+        | keyError => simp [(step_lookup_onMiss_keyError hi hop hk hom hf).2.2.2.2, hk, hom]
+        | error => simp [(step_lookup_onMiss_error hi hop hk hom hf).2.2.2.2.1, hk, hom]
 
-/-- … and its result is returned and cached (one miss, no soft miss) -/
-theorem on_miss_result_cached {c : Cache K V} (hi : Inv c) {op : Op K V} {k : K} {f : K → V}
-    (hop : op.lookupKey = some k) (hk : lookup k c.d = none) (hom : c.onMiss = some f) :
-    (step c op).2 = .val (f k) ∧ lookup k (step c op).1.d = some (f k) ∧
+/-- … and when it returns, its result is returned and cached (one miss, no soft miss) -/
+theorem on_miss_result_cached {c : Cache K V} (hi : Inv c) {op : Op K V} {k : K} {f : K → OmRes V} {v : V}
+    (hop : op.lookupKey = some k) (hk : lookup k c.d = none) (hom : c.onMiss = some f) (hf : f k = .ret v) :
+    (step c op).2 = .val v ∧ lookup k (step c op).1.d = some v ∧
     (step c op).1.hit = c.hit ∧ (step c op).1.miss = c.miss + 1 ∧ (step c op).1.soft = c.soft := by
-  have := step_lookup_onMiss hi hop hk hom
+  have := step_lookup_onMiss hi hop hk hom hf
   exact ⟨this.1, this.2.2.2.2.2, this.2.1, this.2.2.1, this.2.2.2.1⟩
+
+/-- when on_miss raises KeyError the lookup is still a miss (counted before on_miss is called):
+    `c[k]` raises KeyError, get / setdefault answer with the caller's default and count a soft
+    miss on top of the miss — so soft_miss_count cannot overtake miss_count -/
+theorem on_miss_keyError_is_a_miss {c : Cache K V} (hi : Inv c) {op : Op K V} {k : K} {f : K → OmRes V}
+    (hop : op.lookupKey = some k) (hk : lookup k c.d = none) (hom : c.onMiss = some f) (hf : f k = .keyError) :
+    (step c op).2 = (match op.dflt with | some d => .val d | none => .keyError) ∧
+    (step c op).1.hit = c.hit ∧ (step c op).1.miss = c.miss + 1 ∧
+    (step c op).1.soft = c.soft + (if op.dflt.isSome then 1 else 0) ∧
+    (step c op).1.omLog = c.omLog ++ [k] :=
+  step_lookup_onMiss_keyError hi hop hk hom hf
+
+/-- when on_miss raises any other exception it propagates (also out of get / setdefault); the
+    lookup is a miss, not a soft miss, and nothing is cached -/
+theorem on_miss_error_propagates {c : Cache K V} (hi : Inv c) {op : Op K V} {k : K} {f : K → OmRes V}
+    (hop : op.lookupKey = some k) (hk : lookup k c.d = none) (hom : c.onMiss = some f) (hf : f k = .error) :
+    (step c op).2 = .raised ∧ (step c op).1.hit = c.hit ∧ (step c op).1.miss = c.miss + 1 ∧
+    (step c op).1.soft = c.soft ∧ (step c op).1.omLog = c.omLog ++ [k] ∧ (step c op).1.d = c.d :=
+  step_lookup_onMiss_error hi hop hk hom hf
 
 /-- LRI: a successful lookup does not change the eviction order; LRU: it moves the key to the
     most-recent end of the ring (and nothing else) -/
@@ -295,15 +318,24 @@ theorem assignment_refreshes {c : Cache K V} (hi : Inv c) (k : K) (v : V) :
       · rename_i hr; exact absurd hr (evict_ring_nonempty hi hfull)
       · simp
 
+/-- on_miss does not supply a value for `k`: there is none, or it raises KeyError -/
+def Cache.unanswered (c : Cache K V) (k : K) : Bool :=
+  match c.onMiss with
+  | none => true
+  | some f => match f k with
+    | .keyError => true
+    | _ => false
+
 /-- what one call adds to (hit, miss, soft_miss) according to the statement: a lookup that finds
-    the key is a hit, one that does not is a miss, and a miss answered by the caller's default
-    (get / setdefault without on_miss) is also a soft miss -/
+    the key is a hit, one that does not is a miss — whatever on_miss then does —, and a miss
+    answered by the caller's default (get / setdefault when on_miss supplies no value) is also a
+    soft miss -/
 def delta (c : Cache K V) (op : Op K V) : Nat × Nat × Nat :=
   match op.lookupKey with
   | none => (0, 0, 0)
   | some k =>
     if (lookup k c.d).isSome then (1, 0, 0)
-    else (0, 1, if c.onMiss.isNone ∧ op.dflt.isSome then 1 else 0)
+    else (0, 1, if c.unanswered k ∧ op.dflt.isSome then 1 else 0)
 
 /-- the lookups of a whole history on one cache, counted as the statement counts them -/
 def tally (c : Cache K V) : List (Op K V) → Nat × Nat × Nat
@@ -324,8 +356,20 @@ theorem counters_step {c : Cache K V} (hi : Inv c) (op : Op K V) :
     | some v => have := step_lookup_found hi hop hk; simp [this.2.1, this.2.2.1, this.2.2.2.1, hk]
     | none =>
       cases hom : c.onMiss with
-      | none => have := step_lookup_absent hi hop hk hom; simp [this.2.1, this.2.2.1, this.2.2.2.1, hk, hom]
-      | some f => have := step_lookup_onMiss hi hop hk hom; simp [this.2.1, this.2.2.1, this.2.2.2.1, hk, hom]
+      | none =>
+        have := step_lookup_absent hi hop hk hom
+        simp [this.2.1, this.2.2.1, this.2.2.2.1, hk, hom, Cache.unanswered]
+      | some f =>
+        cases hf : f k with
+        | ret v =>
+          have := step_lookup_onMiss hi hop hk hom hf
+          simp [this.2.1, this.2.2.1, this.2.2.2.1, hk, hom, hf, Cache.unanswered]
+        | keyError =>
+          have := step_lookup_onMiss_keyError hi hop hk hom hf
+          simp [this.2.1, this.2.2.1, this.2.2.2.1, hk, hom, hf, Cache.unanswered]
+        | error =>
+          have := step_lookup_onMiss_error hi hop hk hom hf
+          simp [this.2.1, this.2.2.1, this.2.2.2.1, hk, hom, hf, Cache.unanswered]
 
 /-- hit_count, miss_count and soft_miss_count equal the numbers of lookups that found the key,
     that did not, and not-found lookups answered by a caller default — over every history -/
@@ -342,7 +386,7 @@ theorem counters_count_lookups {c : Cache K V} (hi : Inv c) (ops : List (Op K V)
     omega
 
 /-- soft_miss_count ≤ miss_count always -/
-theorem soft_le_miss (lru : Bool) (max : Nat) (hmax : 1 ≤ max) (om : Option (K → V))
+theorem soft_le_miss (lru : Bool) (max : Nat) (hmax : 1 ≤ max) (om : Option (K → OmRes V))
     (ops : List (WOp K V)) (c : Cache K V) (hc : c ∈ reach lru max om ops) : c.soft ≤ c.miss :=
   (reachable_inv lru max hmax om ops c hc).soft_le
 
@@ -393,34 +437,41 @@ theorem copy_behaves_like_source (c : Cache K V) (ops : List (Op K V)) :
 /-! ### non-vacuity: concrete histories with evictions (keys, values : Nat) -/
 
 /-- LRU, max_size 2: set 1, set 2, look 1 up, set 3 -> 2 (not 1) is evicted -/
-example : (reach true 2 (none : Option (Nat → Nat))
+example : (reach true 2 (none : Option (Nat → OmRes Nat))
     [.on 0 (.setitem 1 5), .on 0 (.setitem 2 6), .on 0 (.getitem 1), .on 0 (.setitem 3 7)]).map (·.d)
     = [[(1, 5), (3, 7)]] := by decide
 
 /-- LRI, the same history: the lookup does not count, 1 is evicted -/
-example : (reach false 2 (none : Option (Nat → Nat))
+example : (reach false 2 (none : Option (Nat → OmRes Nat))
     [.on 0 (.setitem 1 5), .on 0 (.setitem 2 6), .on 0 (.getitem 1), .on 0 (.setitem 3 7)]).map (·.d)
     = [[(2, 6), (3, 7)]] := by decide
 
 /-- copy keeps the eviction order: after the same insert both caches evict the same key, and the
     source's counters are untouched by the copy -/
-example : (reach true 2 (none : Option (Nat → Nat))
+example : (reach true 2 (none : Option (Nat → OmRes Nat))
     [.on 0 (.setitem 1 5), .on 0 (.setitem 2 6), .on 0 (.setitem 1 9), .on 0 .copy,
      .on 1 (.setitem 3 7), .on 0 (.setitem 3 7)]).map (fun c => (c.d, c.hit, c.miss))
     = [([(1, 9), (3, 7)], 0, 0), ([(1, 9), (3, 7)], 0, 0)] := by decide
 
 /-- on_miss (k ↦ 2k+1), counters: miss, hit, soft miss is only for caller defaults -/
-example : (reach false 2 (some fun k : Nat => 2 * k + 1)
+example : (reach false 2 (some (totalOm fun k : Nat => 2 * k + 1))
     [.on 0 (.getitem 4), .on 0 (.get 4 0), .on 0 (.get 5 0)]).map (fun c => (c.d, c.hit, c.miss, c.soft, c.omLog))
     = [([(4, 9), (5, 11)], 1, 2, 0, [4, 5])] := by decide
 
-example : (reach true 1 (none : Option (Nat → Nat))
+example : (reach true 1 (none : Option (Nat → OmRes Nat))
     [.on 0 (.get 4 0), .on 0 (.setdefault 4 3), .on 0 (.ior (.pairs [(7, 1), (8, 2)]))]).map
       (fun c => (c.d, c.hit, c.miss, c.soft))
     = [([(8, 2)], 0, 2, 2)] := by decide
 
+/-- on_miss raising KeyError for key 4 and ValueError for key 5 (k ↦ 2k+1 otherwise): every such
+    lookup is a miss; get's default counts a soft miss only for the KeyError; nothing is cached -/
+example : (reach true 2 (some fun k : Nat => if k = 4 then OmRes.keyError else if k = 5 then .error else .ret (2 * k + 1))
+    [.on 0 (.getitem 4), .on 0 (.get 4 0), .on 0 (.get 5 0), .on 0 (.setdefault 4 3), .on 0 (.getitem 6)]).map
+      (fun c => (c.d, c.hit, c.miss, c.soft, c.omLog))
+    = [([(4, 3), (6, 13)], 0, 5, 2, [4, 4, 5, 4, 6])] := by decide
+
 /-- hypotheses of `full_insert_evicts_ring_head` are satisfiable: a full reachable cache -/
-example : let c := run (Cache.init true 2 (none : Option (Nat → Nat))) [.setitem 1 5, .setitem 2 6, .getitem 1]
+example : let c := run (Cache.initP true 2 (none : Option (Nat → OmRes Nat))) [.setitem 1 5, .setitem 2 6, .getitem 1]
     lookup 3 c.d = none ∧ ¬ c.d.length < c.max ∧ c.ring = [(2, 6), (1, 5)] := by decide
 
 end C02
